@@ -81,13 +81,13 @@ CLAIMED = {
         design="DESIGN.md §3 C09", technique="Lean 4 proof (invariants + conservation laws over step/run) + scripted differential run + oracle"),
     "C10": dict(
         engine="tmo",
-        text="Lean 4 proof (46 theorems) over a model of the timeout logic (close decision / wait with uint64 wrap and the 5 s "
+        text="Lean 4 proof (52 theorems) over a model of the timeout logic (close decision / wait with uint64 wrap and the 5 s "
              "jump-back rule; normal, manual, suspended, cleanup, eready lists in pointer order; override, suspend/resume, "
              "new-connection processing, MHD_get_timeout64 and its wrappers, select and epoll rounds) for ARBITRARY clocks: the "
              "invariant incl. sortedness of the default-timeout list is unconditional; round soundness (closed => idle > T, never "
              "suspended), round completeness for epoll and select and hint <= earliest deadline + 100 ms hold for every history in "
              "which the clock is at most 5000 ms behind its high-water mark (the code's own tolerance; largeDisplacement witness "
-             "shows the hypothesis cannot be dropped); hint 0 when pending; override immediate; resume restarts; conversions "
+             "shows the hypothesis cannot be dropped); hint 0 when pending (data_already_pending modelled as the fold over the select traversal it is: raised for a PROCESS connection, never lowered by a later idle one); override immediate; resume restarts; conversions "
              "(MHD_get_timeout, _get_timeout64s, _get_timeout_i, get_timeout_millisec_(int), select / thread timevals) never wait "
              "longer than the hint for every uint64 value. Tie: line-by-line correspondence incl. white-box list dump under a "
              "virtual clock (bounded-exhaustive + random, select + epoll, a backward jump at every position of base histories), "
@@ -98,7 +98,7 @@ CLAIMED = {
         design="DESIGN.md §3 C10", technique="Lean 4 proof (invariant by induction over operations) + model/code correspondence + oracle"),
     "C11": dict(
         engine="susp",
-        text="Lean 4 proof (21 theorems) over a model of internal_suspend_connection_ / MHD_resume_connection / "
+        text="Lean 4 proof (26 theorems, incl. a stand-alone timer model: resume restarts the inactivity timer in both timeout lists, no timeout while suspended, no early timeout after resume) over a model of internal_suspend_connection_ / MHD_resume_connection / "
              "resume_suspended_connections, the select/poll/epoll traversals and the connection state machine's `suspended` guards, "
              "for keep-alive PIPELINES of requests, every history, mode, readiness answer and application script: lists stay "
              "consistent; a suspended connection is in no traversed list, gets no handler / reader / recv / send and keeps its state "
